@@ -72,6 +72,15 @@ P = {
              "enumerated by TLC and executed against the real parser with real signed requests; accepted requests "
              "must carry type, suffix, id, bytes and anchor origin. Random multi-deviation pairs are validated by TLC.",
         ref="DESIGN.md 3 C07"),
+    "C08": dict(
+        level="model_checking", engine="client",
+        technique="TLA+ lifecycle state machine (Client.tla over Composer.tla) checked by TLC; every explored edge built "
+                  "with the real request builders and the real Sidetree client, parsed, anchored and applied",
+        text="The specification is what the caller expects: the requested document, the keys behind the pending "
+             "commitments, flags, and the refusals the builders owe. TLC explores every lifecycle up to the bound; each "
+             "edge is executed at both entry levels of the library and the parser verdict, the anchored form "
+             "(reference JCS) and the applied state are compared with the specification's.",
+        ref="DESIGN.md 3 C08"),
     "C09": dict(
         level="model_checking", engine="applier",
         technique="TLA+ window operators (InWindow / EffUntil) in Applier.tla; TLC enumerates the full (from, until, t) "
